@@ -150,6 +150,16 @@ func BuildOptions(op OptPlan, fs vfs.FS, el *pebble.EventListener, lg pebble.Log
 	if op.CheckLevels {
 		o.DebugCheck = pebble.DebugCheckLevels
 	}
+	if op.NumDel > 0 {
+		o.NumDeletionsThreshold = op.NumDel
+	}
+	if op.TombDense > 0 {
+		td := float64(op.TombDense) / 100
+		o.TombstoneDenseCompactionThreshold = func() float64 { return td }
+	}
+	if op.ReadSampling != 0 {
+		o.ReadSamplingMultiplier = int64(op.ReadSampling)
+	}
 	o.EnsureDefaults()
 	return o
 }
